@@ -38,10 +38,11 @@ type DocSpec struct {
 	ResMeta   bool       `json:"resource_meta,omitempty"` // every resource carries its own meta object
 	NilFields bool       `json:"nil_fields_map,omitempty"` // url.Params.Fields is a nil map (a hand-written &Params{}): no selection entry for any type
 	NotCol    bool       `json:"url_not_marked_collection,omitempty"` // a hand-written URL literal whose IsCol was left false
+	URLRelData bool      `json:"url_params_rel_data,omitempty"` // url.Params.RelData names every relationship of every type (a field handlers fill in; the document's own request is what counts)
 	SpareCap  bool       `json:"spare_capacity,omitempty"` // the selection lists are slices with spare capacity
 }
 
-var prefixPool = []string{"", "/", "https://example.org", "https://example.org/", "https://example.org/api/v1", "/api/", "http://h/a b", "https://example.org/\"q\""}
+var prefixPool = []string{"", "/", "https://example.org", "https://example.org/", "https://example.org/api/v1", "/api/", "http://h/a b", "https://example.org/\"q\"", "https://example.org/caf%C3%A9/api", "/my%20api/", "http://[fe80::1%25eth0]:8080/v1", "/100%/"}
 
 // genJSONValue draws a JSON-representable value whose numbers survive float64.
 func genJSONValue(r *RNG, depth int) any {
@@ -308,6 +309,7 @@ func genDoc(r *RNG, o docOpts) *DocSpec {
 		d.Fields = map[string][]string{}
 	}
 	d.NotCol = r.Chance(1, 8)
+	d.URLRelData = r.Chance(1, 3)
 	d.SpareCap = r.Chance(1, 3)
 	t0 := &s.Types[0]
 	if r.Chance(1, 4) {
@@ -494,6 +496,12 @@ func (d *DocSpec) build() *docBuilt {
 	}
 	if d.NotCol {
 		b.URL.IsCol = false
+	}
+	if d.URLRelData {
+		b.URL.Params.RelData = map[string][]string{}
+		for i := range d.Schema.Types {
+			b.URL.Params.RelData[d.Schema.Types[i].Name] = d.Schema.Types[i].RelNames()
+		}
 	}
 	if d.SpareCap {
 		for k, v := range b.URL.Params.Fields {
